@@ -1194,41 +1194,46 @@ func c22ForkCommit(a *c22Adv, kind string) {
 // 2 see no supermajority above block 1. The commit {Byzantine precommit 5, node 0 precommit 5} for block 4
 // carries exactly 2 of 4 valid precommits and is sent to node 0.
 func c22ForkCommitExact(a *c22Adv) {
+	// reactive, see exactScriptOnVote
+}
+
+// exactScriptOnVote is the Byzantine voter of fork-commit-exact-two-thirds (a.mu is held).
+func (a *c22Adv) exactScriptOnVote(from int, m *VoteMessage) {
 	s, t := a.s, a.s.tree
 	byz := s.p.Byz[0]
-	iv := s.p.IntervalMs
 	kp := s.keys[byz]
+	iv := s.p.IntervalMs
 	const round = 1
-	for _, to := range s.hon {
-		blk := 3
-		if to == s.hon[0] {
-			blk = 5
+	once := func(key string) bool {
+		if a.stageSeen[key] {
+			return false
 		}
-		a.sendVote(kp, -1, to, prevote, t.Vote(blk), round, s.p.SetID, 2*iv, "script-prevote", false)
+		a.stageSeen[key] = true
+		return true
 	}
-	// node 0 also gets the Byzantine precommit for block 5 as a vote: its own tally of block 5 is exactly 2 of 4
-	a.sendVote(kp, -1, s.hon[0], precommit, t.Vote(5), round, s.p.SetID, 4*iv, "script-precommit", false)
-	bv := verifSignVote(kp, precommit, t.Vote(5), round, s.p.SetID)
-	s.recordVote("byz", bv.AuthorityID, precommit, bv.Vote, round, s.p.SetID, bv.Signature)
-	var try func(k int)
-	try = func(k int) {
-		if k > 60 {
-			return
+	if m.Round != round {
+		return
+	}
+	switch {
+	case m.Message.Stage != precommit && once("pv"):
+		for _, to := range s.hon {
+			blk := 3
+			if to == s.hon[0] {
+				blk = 5
+			}
+			a.sendVote(kp, -1, to, prevote, t.Vote(blk), round, s.p.SetID, 0, "script-prevote", false)
 		}
-		a.mu.Lock()
-		vm := a.scriptPrecommitOf(s.hon[0], round)
-		a.mu.Unlock()
-		if vm == nil {
-			s.after(s.ms(iv/2+1), func() { try(k + 1) })
-			return
-		}
-		b := t.Index(vm.Message.BlockHash)
+	case m.Message.Stage == precommit && from == s.hon[0] && once("pc"):
+		b := t.Index(m.Message.BlockHash)
 		if b < 0 || !t.IsAncestorOrEqual(4, b) {
 			s.count("script_exact_node0_precommitted_elsewhere", 1)
 			return
 		}
-		pcs := []SignedVote{bv, {Vote: Vote{Hash: vm.Message.BlockHash, Number: vm.Message.Number},
-			Signature: vm.Message.Signature, AuthorityID: vm.Message.AuthorityID}}
+		// node 0 also gets the Byzantine precommit for block 5 as a vote: its own tally of block 5 is exactly 2 of 4
+		a.sendVote(kp, -1, s.hon[0], precommit, t.Vote(5), round, s.p.SetID, 0, "script-precommit", false)
+		bv := verifSignVote(kp, precommit, t.Vote(5), round, s.p.SetID)
+		pcs := []SignedVote{bv, {Vote: Vote{Hash: m.Message.BlockHash, Number: m.Message.Number},
+			Signature: m.Message.Signature, AuthorityID: m.Message.AuthorityID}}
 		cm := verifCommit(round, s.p.SetID, t.Vote(4), pcs)
 		a.sendCommit(byz, s.hon[0], cm, 0, "script-exact")
 		a.sendCommit(byz, s.hon[0], cm, iv, "script-exact")
@@ -1241,15 +1246,6 @@ func c22ForkCommitExact(a *c22Adv) {
 			}
 		}
 	}
-	s.after(s.ms(3*iv), func() { try(0) })
-}
-
-// scriptPrecommitOf returns the precommit of honest node i in `round` once the adversary has seen it.
-func (a *c22Adv) scriptPrecommitOf(i int, round uint64) *VoteMessage {
-	if a.votes[round] == nil || a.votes[round][byte(precommit)] == nil {
-		return nil
-	}
-	return a.votes[round][byte(precommit)][i]
 }
 
 // c22ForkVotes: node 0 knows only the fork 4-5 at first, nodes 1 and 2 only the fork 2-3; the Byzantine voter
@@ -1305,8 +1301,11 @@ func (a *c22Adv) observeScript(from int, gm GrandpaMessage) {
 		a.votes[m.Round][st] = map[int]*VoteMessage{}
 	}
 	a.votes[m.Round][st][from] = m
-	if a.s.p.Script == "estimate-not-carried-over" {
+	switch a.s.p.Script {
+	case "estimate-not-carried-over":
 		a.estimateScriptOnVote(from, m)
+	case "fork-commit-exact-two-thirds":
+		a.exactScriptOnVote(from, m)
 	}
 }
 
@@ -1431,7 +1430,7 @@ func c22ScriptParams(idx int) *c22Params {
 			p.Release[i][4], p.Release[i][5] = late, late
 		}
 	}
-	p.CapMs = 70 * p.IntervalMs
+	p.CapMs = 100 * p.IntervalMs
 	return p
 }
 
@@ -1618,7 +1617,7 @@ var c22ReportMu sync.Mutex
 
 var c22HexRe = regexp.MustCompile(`0x[0-9a-fA-F]+`)
 
-func c22Execute(c *vcommon.Case, p *c22Params) {
+func c22Execute(c *vcommon.Case, p *c22Params) (observed map[string]int) {
 	defer func() {
 		if r := recover(); r != nil {
 			c22ReportMu.Lock()
@@ -1635,8 +1634,9 @@ func c22Execute(c *vcommon.Case, p *c22Params) {
 		votes: map[uint64]map[byte]map[int]*VoteMessage{}, commits: map[uint64]*CommitMessage{}, forged: map[string]int{}}
 	if err := s.run(); err != nil {
 		c.Inconclusive("set-up failed: " + err.Error())
-		return
+		return nil
 	}
+	observed = s.counters
 	s.mu.Lock()
 	events := append([]c22Event{}, s.events...)
 	votes := append([]c22VoteRec{}, s.votes...)
@@ -1763,6 +1763,7 @@ func c22Execute(c *vcommon.Case, p *c22Params) {
 	for _, x := range v.Conflicts {
 		c.Violation("conflicting-finalisation", "two blocks on different forks were finalised", witness(x))
 	}
+	return observed
 }
 
 const c22Batch = 3
@@ -1830,16 +1831,24 @@ func TestVerifC22(t *testing.T) {
 	for _, name := range c22ScriptNames {
 		r.Floor("script:"+name, 1)
 	}
-	// the forged messages of the corpus scenarios were really handed to a service
-	for _, tag := range []string{"commit script-exact", "commit script-dup", "commit script-garbage", "commit script-outsiders",
-		"script-garbage-sig", "script-non-authority"} {
-		r.Floor("delivered:"+tag, 1)
-	}
-
 	r.Floor("script:stop-closed-action-channel", 1)
 	r.Fixed("stop", 1, c22StopCase)
+	// a scenario whose forged message could not be placed (a node was not where the script needs it: timing) is
+	// run again, at most 3 times; every attempt is checked like any other execution
+	needs := map[string]string{"fork-commit-exact-two-thirds": "delivered:commit script-exact",
+		"fork-commit-dup-authority": "delivered:commit script-dup", "fork-commit-garbage-pairs": "delivered:commit script-garbage",
+		"fork-commit-non-authorities": "delivered:commit script-outsiders", "fork-votes-garbage-sig": "delivered:script-garbage-sig",
+		"fork-votes-non-authorities": "delivered:script-non-authority"}
 	r.Fixed("script", len(c22ScriptNames), func(c *vcommon.Case) {
-		c22Execute(c, c22ScriptParams(c.Idx))
+		for attempt := 0; attempt < 3; attempt++ {
+			p := c22ScriptParams(c.Idx)
+			p.NetSeed += uint64(100 * attempt) //nolint:gosec
+			obs := c22Execute(c, p)
+			if need := needs[p.Script]; need == "" || obs[need] > 0 {
+				break
+			}
+			c.Count("script_attempt_without_the_forged_message", 1)
+		}
 	})
 	// one case = a batch of executions that run side by side (an execution mostly waits for the services' timers)
 	r.Cases("sim", r.Scale(20), func(c *vcommon.Case) {
